@@ -113,10 +113,12 @@ func (s *socket) SendMsg(m *protocol.Message) error {
 }
 
 func (s *socket) RecvMsg() (*protocol.Message, error) {
+	// The deadline is armed once: a queue resize while we wait must not
+	// start it over.
+	timeQ := nilQ
 	for {
-		timeQ := nilQ
 		s.Lock()
-		if s.recvExpire > 0 {
+		if s.recvExpire > 0 && timeQ == nil {
 			timeQ = time.After(s.recvExpire)
 		}
 		closeQ := s.closeQ
